@@ -5,6 +5,41 @@ HERE = os.path.dirname(os.path.dirname(os.path.abspath(__file__)))
 
 # id -> (level text, level note, technique, design_ref)
 CHECKS = {
+ 'C14': ("Lean 4 proofs over an executable model of PyMTL3's naming (NamedObject.__setattr_for_elaborate__, Signal.__getattr__/__getitem__, clk/reset injection) show, for "
+         "every construction description and every statically or lazily created object, that evaluating the full name returns that very object (resolve_name), that names and "
+         "repr strings are unique (name_injective, repr_unique, render_injective), that parent / level / host / top-level signal / field name are exactly the values read off the "
+         "name's prefixes, that a slice of a slice is the re-based slice of the unsliced signal, that the breadth-first list walk assigns exactly the structural indices, and that "
+         "every object reachable by any expression is covered. Tied to /repo by differential execution of ~1100 (quick) / ~12700 (thorough) generated hierarchies written as real "
+         "module files (name sets, full records, non-canonical expressions, FieldReassignError) with an independent oracle on the real objects (unique repr, eval(repr(o)) is o, "
+         "metadata equal to prefix values).",
+         "Proof is about the hand-written model Model/Hier.lean. Lazily created signals are modelled as a created set with position-determined records; dict caching is tied to the "
+         "code only by `is`-identity checks. Re-elaboration invariance is proved as per-object determinism, not as permutation invariance of access order. Assumes no aliasing, "
+         "homogeneous object/list lists (a `[None, Wire()]` list yields an unnamed collected object: outside the property's quantifier, opt-in probe C14_PROBE_MIXED=1), and "
+         "identifier-like names that do not shadow Signal/Component attributes.",
+         "Lean 4 proof (resolve/nameOf round trip, prefix characterisations) + differential correspondence check", "DESIGN.md §5 C14"),
+ 'C17': ("Lean 4 proof: every queue class of queues.py and stream/queues.py (ring-buffer ctrl+dpath with the code's pointer/count widths, and the 1-entry forms), enrdy_queues "
+         "Normal1/Pipe1/Bypass1, all four valrdy_queues classes and the three CL queues is proved, for every capacity, every message type and every protocol-legal input history, to "
+         "produce exactly the outputs of FIFO_spec(kind, capacity) at every cycle (refinement with invariant: ring_inv, ring_refines, one_entry_refines, vring_refines, cl_refines, "
+         "refines_trace). From that: delivered is a prefix of accepted with at most capacity messages inside, count / num_free_entries exact, and the three ready/valid laws stated "
+         "outright. For enrdy BypassQueue2RTL FIFO order, count and the dequeue law are proved and the enqueue-ready law is shown false (known finding). Models tied to the real "
+         "classes by differential simulation (random legal histories for all classes x capacities {1,2,3,4,5,7,8} x 2 message types, exhaustive state x offer enumeration for n <= 2 "
+         "quick / n <= 4 thorough) plus an independent FIFO-ledger oracle.",
+         "Models hand-transcribed (RegisterFile/Mux/Reg inline); CL same-cycle order hard-coded from the method constraints and checked only by execution under the real scheduler; "
+         "FIFO clauses stated between resets (messages accepted during a reset cycle by ungated families are dropped, as the code does); valrdy_queues.py runs only with two interface "
+         "classes injected by the harness (the module is unimportable as shipped: recorded as a note); known finding C17-bypass2-enq-rdy-bubble.",
+         "Lean 4 proof (refinement to a FIFO spec with invariant) + differential/exhaustive correspondence", "DESIGN.md §5 C17"),
+ 'C18': ("Lean 4 proof: the two magic-memory systems are modelled cycle by cycle (slot pipelines for DelayPipeDeqCL/DelayPipeSendCL/InelasticDelayPipe, StallCL/RandomStall as an "
+         "arbitrary Bool stream, up_mem servicing ports in index order) and Lean proves, for every port count, latency, request stream and every stall/source/sink stream, that the "
+         "store and each port's in-order response stream equal the sequential specification applied to the processing order (cl_timing_independent, rtl_timing_independent), that "
+         "processed requests are a prefix of the request stream with type/opaque echoed, that each delay pipe is FIFO under any history, that every byte read is the latest earlier "
+         "store covering it (read_latest, image_latest) and that AMOs return the old value and store op(old,arg) mod 2^(8k). Single-port and disjoint-region corollaries show contents "
+         "are independent of timing outright. The correspondence check runs MagicMemoryFL, MagicMemoryCL and stream MagicMemoryRTL under random timing configurations, records the real "
+         "processing order and every stall/source/sink decision, and compares responses and final image with seqSpec, with an independent byte-dict oracle, and cycle-accurately with "
+         "the system models driven by the recorded decisions.",
+         "Full system theorem proved for both CL and RTL models. Modelled, not verified: per-cycle block order of the CL model; the RTL model's clock edge taken right after each "
+         "up_mem iteration; sources, sinks and stall RNG abstracted as arbitrary streams. Out of scope: INV/FLUSH/other message types, addresses beyond mem_nbytes, sub-word AMOs "
+         "(they raise a width error today; recorded as an observation).",
+         "Lean 4 proof (system invariant over arbitrary environment streams) + cycle-accurate differential correspondence", "DESIGN.md §5 C18"),
  'C19': ("Lean 4 proof over a block-by-block model of RoundRobinArbiter and RoundRobinArbiterEn with the RegEnRst(reset_value=1) pointer register, for every nreqs, "
          "request vector and input history: the pointer is one-hot in every state reachable through a reset (onehot_inv/onehot_history); the grant vector is zero or "
          "one-hot, a subset of reqs, nonzero iff reqs is nonzero, and equal to 2^k for the requester cyclically first from the pointer (grants_closed_form); the pointer "
